@@ -76,17 +76,72 @@ function validateCall (rec, dm, world) {
   return fails[0]
 }
 
+// Marked-operand oracle. Every world atom has a value that names it (`w.s7` is ' ⟦w.s7⟧ ', `w.f9()` is ' ⟦w.f9()⟧ '). When the
+// operand handed to a hook is a temporary that the enclosing injected sequence assigned from such an atom, the value the hook
+// receives at run time must be that atom's value: anything else means the temporary was overwritten between its assignment and
+// the hook call (an operand "replaced by a different value" although the call and the hook agree with each other).
+// Returns { text: the content with every hook call site numbered (`_ddiast.$s[n].name(`), expected: site -> [marker|undefined, ...] }
+function tagSites (content, isModule) {
+  let ast
+  try { ast = A.parse(content, { module: isModule }) } catch (e) { return null }
+  const sites = []
+  const atomValue = (e) => {
+    if (!e) return undefined
+    if (e.type === 'MemberExpression' && !e.computed && e.object.type === 'Identifier' && e.object.name === 'w' && /^s\d+$/.test(e.property.name)) return ' ⟦w.' + e.property.name + '⟧ '
+    if (e.type === 'CallExpression' && e.arguments.length === 0 && !e.optional && e.callee.type === 'MemberExpression' && !e.callee.computed && !e.callee.optional && e.callee.object.type === 'Identifier' && e.callee.object.name === 'w' && /^f\d+$/.test(e.callee.property.name)) return ' ⟦w.' + e.callee.property.name + '()⟧ '
+    return undefined
+  }
+  ;(function visit (n, anc) {
+    if (!A.isObj(n)) return
+    if (Array.isArray(n)) { n.forEach(c => visit(c, anc)); return }
+    if (!n.type) return
+    if (A.isHookCall(n)) {
+      // operands after a spread have no fixed run-time index: only the ones before the first spread are decided
+      const firstSpread = n.arguments.slice(1).findIndex(a => a.type === 'SpreadElement')
+      const expected = n.arguments.slice(1).map((a, k) => {
+        if (firstSpread >= 0 && k >= firstSpread) return undefined
+        if (a.type !== 'Identifier' || !/^__datadog_/.test(a.name)) return undefined
+        // nearest enclosing sequence that assigns the temporary before the expression containing this site
+        const path = anc.concat([n])
+        for (let i = path.length - 1; i >= 1; i--) {
+          const seq = path[i - 1]
+          if (seq.type !== 'SequenceExpression') continue
+          const idx = seq.expressions.indexOf(path[i])
+          for (let j = idx - 1; j >= 0; j--) { const x = seq.expressions[j]; if (x.type === 'AssignmentExpression' && x.operator === '=' && x.left.type === 'Identifier' && x.left.name === a.name) return atomValue(x.right) }
+        }
+        return undefined
+      })
+      sites.push({ at: n.callee.object.end, expected })
+    }
+    const next = anc.concat([n])
+    for (const k of Object.keys(n)) { if (k === 'type' || k === 'start' || k === 'end' || k === 'loc' || k.startsWith('__')) continue; const v = n[k]; if (A.isObj(v)) visit(v, next) }
+  })(ast, [])
+  sites.sort((x, y) => x.at - y.at)
+  let text = ''; let from = 0
+  sites.forEach((s, id) => { text += content.slice(from, s.at) + '.$s[' + id + ']'; from = s.at })
+  text += content.slice(from)
+  return { text, expected: sites.map(s => s.expected), known: sites.reduce((a, s) => a + s.expected.filter(x => x !== undefined).length, 0) }
+}
+
 async function dynamicCheck (job, resp) {
   const isModule = !!job.meta.module
   if (compile(job.code, isModule)) return { status: 'invalid-input' }
   const dm = dstMap(job.config)
   const bad = []
   let calls = 0
-  const onHook = (rec, world) => { calls++; const f = validateCall(rec, dm, world); if (f && bad.length < 3) bad.push({ f, rec: { name: rec.name, res: world.sum(rec.res), ops: rec.ops.map(o => world.sum(o)) } }) }
+  let markedOperands = 0
+  const tagged = tagSites(resp.ok.content, isModule)
+  const onHook = (rec, world) => {
+    calls++
+    const f = validateCall(rec, dm, world)
+    if (f && bad.length < 3) bad.push({ f, rec: { name: rec.name, res: world.sum(rec.res), ops: rec.ops.map(o => world.sum(o)) } })
+    const exp = tagged && rec.site !== undefined ? tagged.expected[rec.site] : null
+    if (exp) for (let k = 0; k < exp.length; k++) if (exp[k] !== undefined) { markedOperands++; if (rec.ops[k] !== exp[k] && bad.length < 3) bad.push({ f: { kind: 'operand-is-not-the-value-assigned-to-its-temporary', detail: `operand #${k + 1} is a temporary assigned from an expression whose value is ${exp[k].trim()}, the hook received ${world.sum(rec.ops[k])}` }, rec: { name: rec.name, res: world.sum(rec.res), ops: rec.ops.map(o => world.sum(o)) } }) }
+  }
   const ident = await run(resp.ok.content, { module: isModule, hooks: 'identity' })
-  const recd = await run(resp.ok.content, { module: isModule, hooks: 'record', onHook })
+  const recd = await run(tagged ? tagged.text : resp.ok.content, { module: isModule, hooks: 'record', onHook })
   if (ident.timedOut || recd.timedOut) return { status: 'timeout' }
-  const out = { status: 'ran', calls, bad, events: recd.log.length }
+  const out = { status: 'ran', calls, bad, events: recd.log.length, markedOperands }
   // single evaluation: recording the operands must not change the effect history
   if (ident.log.join('\n') !== recd.log.join('\n') || ident.completion !== recd.completion) out.recordingChangedEffects = true
   return out
@@ -160,7 +215,7 @@ module.exports = {
       rep.evaluations++
       if (out.struct && out.struct.sites) { bump('hook_sites_checked_structurally', out.struct.sites); rep.distinct.push(hashStr(js[i].code + js[i].cfgName)) }
       if (out.knownShape) bump('programs_with_known_shape_site')
-      if (out.dyn && out.dyn.status === 'ran') { bump('programs_executed_with_recording_hooks'); bump('hook_invocations_validated', out.dyn.calls); bump('world_events', out.dyn.events) }
+      if (out.dyn && out.dyn.status === 'ran') { bump('programs_executed_with_recording_hooks'); bump('hook_invocations_validated', out.dyn.calls); bump('operands_compared_with_the_value_of_their_source_atom', out.dyn.markedOperands || 0); bump('world_events', out.dyn.events) }
       if (out.dyn && out.dyn.status === 'timeout') rep.inconclusive.push({ reason: 'exec-timeout', detail: js[i].meta.sigBase })
       if (rep.samples.length < 2 && out.dyn && out.dyn.calls > 2 && js[i].code.length < 900) rep.samples.push({ input: clip(js[i].code, 500), config: js[i].cfgName, hook_invocations: out.dyn.calls, hook_sites: out.struct.sites })
       for (const v of violations) rep.violations.push(v)
